@@ -17,7 +17,10 @@ import (
 // health events, ticks and operator commands. Time is the scheduler's virtual
 // clock; it is advanced only in the sequential prefix, while every fired timer
 // thread has finished ("join") — i.e. a runnable goroutine is never assumed to
-// be starved across a health-check interval. GracePeriod is 0 here (a virtual
+// be starved across a health-check interval. The one exception are the "due in
+// 1ms" scenarios: a single 1 ms step of the clock runs concurrently with an
+// event handler (a goroutine may well be off the CPU, or inside a slow log
+// write, for a millisecond). GracePeriod is 0 here (a virtual
 // Sleep does not advance time); the grace period is Engine A's business.
 //
 // ops: down up tick force forceback cbfail cbok adv10 adv30 join-promoted join-attempt
@@ -41,6 +44,12 @@ func scenarios(thorough bool) []scen {
 		// two probe results reported concurrently (periodic check and CheckNow) while a failover is pending: the monitor
 		// calls its handlers after releasing its lock, so the two reports can reach the controller in either order
 		{"pending|up|down (two monitor callers);+5s", []string{"down", "adv5"}, [][]string{{"up", "join-all", "adv5"}, {"down"}}},
+		// The event is REPORTED strictly before the timer is due and its handler is still running (preempted for at most
+		// 1 ms of virtual time, e.g. a slow log sink under the controller lock) when the timer fires: the recovery /
+		// the new failure arrived in time and must win. The 1 ms clock step runs as a thread of its own.
+		{"failover-timer due in 1ms|up|+1ms", []string{"down", "adv9999ms"}, [][]string{{"up"}, {"adv1ms"}}},
+		{"failover-timer due in 1ms|up|+1ms|tick", []string{"down", "adv9999ms"}, [][]string{{"up"}, {"adv1ms"}, {"tick"}}},
+		{"failback-timer due in 1ms|down|+1ms", []string{"down", "adv10", "join-promoted", "up", "adv29999ms"}, [][]string{{"down"}, {"adv1ms"}}},
 		{"failback-timer|down", failback, [][]string{{"down"}}},
 		{"failback-timer|down|tick", failback, [][]string{{"down"}, {"tick"}}},
 		{"failback-timer|tick (partner down)", failbackDown, [][]string{{"tick"}}},
@@ -72,6 +81,14 @@ func (sc scen) scenario() *sched.Scenario {
 			st.o = newOracle(0, func() time.Time { return x.Now })
 			x.Data = st
 			o := st.o
+			// a report counts from the moment its carrier holds the controller's lock
+			o.curThread, o.inflight = x.CurName, map[string]ha.HealthEventType{}
+			ctlLock := o.ctl.VerifC14Lock()
+			x.OnAcquire = func(m any) {
+				if m == ctlLock {
+					o.delivered()
+				}
+			}
 			joinKey := new(int)
 			o.onEvHook = func(e ha.FailoverEvent) {
 				if e.Type == ha.FailoverEventRoleChanged && e.NewRole == ha.RoleActive {
@@ -116,6 +133,12 @@ func (sc scen) scenario() *sched.Scenario {
 					o.cbFail = false
 				case "adv5":
 					x.Advance(5 * time.Second)
+				case "adv9999ms":
+					x.Advance(9999 * time.Millisecond)
+				case "adv29999ms":
+					x.Advance(29999 * time.Millisecond)
+				case "adv1ms":
+					x.Advance(time.Millisecond)
 				case "join-all":
 					for st.finished < len(sc.threads)-1 && !x.Aborted() {
 						x.Block(joinKey, "join")
